@@ -79,6 +79,10 @@ def run(ctx) -> None:
     ctx.rule("R08.10", "a finishing tee child unregisters its own buffer (by identity) and only the last one closes the shared "
                        "iterator (R04.5, shared)")
     c04.r04_5(Relabel(ctx, "R08.10"))
+    from . import c03
+    ctx.rule("R08.11", "a tool consumes from a shared handle what the stdlib tool consumes whatever the other arguments are: no "
+                       "argument is singled out by its type or length (R03.2, shared)")
+    c03.r03_2(Relabel(ctx, "R08.11"))
 
 
 def _field_writes(unit, fld: str):
